@@ -68,12 +68,29 @@ def signature(o: Obligation, cex: dict, detail: str) -> str:
     return f"C04:{o.meta['transport']}:{detail.split(':')[0]}"
 
 
+def e2_specs(tier):
+    """connection loss (the real _thread_receiver epilogue) racing user threads that are blocked in receive()/waitclose() or inside
+    setcallback(): the channel-layer scenarios of C03/C10 with the EOF ending"""
+    thorough = tier == "thorough"
+    out = []
+    for r, i, w in [(2, 1, True)] + ([(2, 0, True), (3, 1, False), (2, 2, True)] if thorough else []):
+        out.append({"module": "props.c03", "factory": "sc_blocked_receivers", "args": {"nreceivers": r, "nitems": i, "end": "eof", "waitclose": w}, "K": 0,
+                    "name": f"loss_with_blocked_receivers[{r},{i},wc={w}]", "timeout": 3000 if thorough else 600, "validate": 3, "depth_probes": 200})
+    for p_, a_, m_ in [(1, 1, True), (0, 1, True)] + ([(2, 0, True), (1, 1, False), (0, 2, True)] if thorough else []):
+        out.append({"module": "props.c10", "factory": "sc_setcallback_race", "args": {"prequeued": p_, "after": a_, "end": "eof", "endmarker": m_}, "K": 0,
+                    "name": f"loss_during_setcallback[pre={p_},after={a_},em={m_}]", "timeout": 3000 if thorough else 600, "validate": 3, "depth_probes": 200})
+    return out
+
+
 def run(tier: str) -> Outcome:
     fns = describe_functions([gb.BaseGateway._thread_receiver, gb.Message.from_io, gb.Message.received, gb.Popen2IO.read,
                                gateway_socket.SocketIO.read, gb.ChannelFactory._finished_receiving, gb.ChannelFactory._local_close,
                                gb.ChannelFactory._local_receive, gb.Channel.receive, gb.Channel.waitclose, gb.Channel.send,
                                gb.Channel.setcallback, gb.BaseGateway._send, gb.BaseGateway.newchannel, gateway.Gateway.remote_exec])
-    return e1.run_e1(
+    from vlib import e2run
+
+    e2out = e2run.outcome_from("C04", tier, e2run.run_scenarios(e2_specs(tier)), fns, [], "", [], "", "C04")
+    out = e1.run_e1(
         "C04", tier, build(tier), signature, fns,
         stubs=[
             "gateway_base's sys.stderr swallows warnings inside harnesses (the C-level write rejects symbolic strings)",
@@ -85,14 +102,30 @@ def run(tier: str) -> Outcome:
                 "the cut offset symbolic over every byte position of the stream (header, payload, frame boundary, end), the first 1 (thorough 2) "
                 "low-level reads symbolic (1 byte / all), a callback+endmarker channel on channel 0/1 or none (its channel object kept or dropped: symbolic), both Popen2IO and SocketIO"),
         outside=[
-            "several threads blocked in receive/waitclose while the loss happens (schedule-quantified part): not decided by this E1 check",
+            "more than 3 threads blocked in receive/waitclose while the loss happens; the loss is the receiver thread's EOF epilogue (all complete frames handled before)",
             "real SIGKILLs and kernel pipe/socket behaviour; Gateway.hasreceiver() (pool bookkeeping, see C09)",
         ],
         explanation=("bounded symbolic execution of the real receiver-thread body and its epilogue over a stream cut at a symbolic byte offset: "
                      "delivered items = exactly the DATA frames completely before the cut, in order; then EOFError on every receive/waitclose, "
-                     "callback endmarker exactly once and last, gateway._error set, send/newchannel/remote_exec raise OSError"),
+                     "callback endmarker exactly once and last, gateway._error set, send/newchannel/remote_exec raise OSError; E2 (bounded model checking, every "
+                     "shared access a scheduling point): the real epilogue of _thread_receiver races 2-3 user threads blocked in receive() and one in waitclose(), "
+                     "and a user thread inside setcallback(): every schedule ends with all complete items delivered once, EOFError for every other receive, the "
+                     "endmarker exactly once and last, nobody blocked"),
     )
+    e2run.merge_into(out, e2out, "e2_connection_loss_schedules",
+                     "E2 part: queue.Queue = FIFO with blocking get, channel/callback tables = finite maps, loads_internal = identity; handlers run under gateway._receivelock")
+    return out
 
 
 def replay(rep: dict):
+    if rep.get("engine") == "E2":
+        import importlib
+
+        from vlib import e2run
+
+        spec = rep["scenario"]
+        sc = getattr(importlib.import_module(spec["module"]), spec["factory"])(**spec["args"])
+        ghost, done, blocked, sched = sc.replay([tuple(x) for x in rep["order"]], mode=rep.get("mode", "sync"))
+        hits = e2run.real_bad(sc.bad, ghost, done, blocked)
+        return bool(hits) and not sched.diverged, f"hits={hits} ghost={ghost} blocked={blocked} diverged={sched.diverged}"
     return e1.replay_entry(rep)
